@@ -28,7 +28,11 @@ def deps_of(ref, i):
     fp = ref.flat[i]
     return ([fp.sel] if fp.sel is not None else []) + list(fp.hard) + list(fp.soft) + list(getattr(fp, "rdeps", []))
 
+_DIST = {}
+
 def gen(rng, tier, dist):
+    global _DIST
+    _DIST = dist
     n = 300 if tier == "quick" else 4000
     out = list(sc.macro_cases())
     dist["macro-made metadata blocks"] = len(out)
@@ -123,6 +127,10 @@ def canon(case, line):
         # the model driver evaluated `declared a (apropos_of_tree root)` for this application and it does
         # not hold (hypothesis of C13_perm_invariant / C12's sorted pipeline): shown as a disagreement
         return line[:200]
+    if " cond=" in line:
+        # the model driver's evaluation of wf_app / full_conditions / ranked for this case (C12.count_cond)
+        from props import C12 as _c12
+        _c12.count_cond(line, _DIST)
     r = parse_out(line)
     if r is None:
         return line
@@ -132,6 +140,7 @@ def canon(case, line):
                                               for p in g) for g in r[1])
 
 def parse_out(line):
+    line = re.sub(r" cond=\S+$", "", line)
     m = re.match(r"n=(\d+) (.*)$", line)
     if not m:
         return None
